@@ -157,6 +157,23 @@ CLAIMED = {
                   "tracing between serialiser, element factory and loader, attribute names against the OPC schema",
         design="DESIGN.md §4 C01",
     ),
+    "C04": dict(
+        level="other",
+        text="Structural clauses of the text translations: the run-level escape class, read from the regular expression's own parse "
+             "tree, is exactly C0 minus {TAB, LF} and is replaced by _x%04X_ of the code point, the run setter stores exactly the "
+             "escaped value and the reader returns the a:t text or ''; the paragraph-level split alternatives are exactly {LF, VT}, "
+             "a line break is added before every item but the first and a run only for a non-empty item, a:br reads back as VT, "
+             "and the paragraph readers concatenate the text of a:r / a:br / a:fld in document order; the frame-level split "
+             "literal is LF, existing paragraphs are removed first, exactly one paragraph is added and filled per segment, the "
+             "frame reader joins every paragraph with LF, and cell / shape text delegate to the text frame; paragraph-level "
+             "assignment is clear() then append_text(), and clear() removes exactly the content children, so a:pPr and "
+             "a:endParaRPr stay. NOT decided: whitespace survival through the parser's remove_blank_text heuristics, identity "
+             "after save and re-open, astral code points.",
+        technique="static analysis: regular-expression parse trees (re._parser) turned into character sets and compared with the "
+                  "sets the statement names, constant folding of split literals and read-back symbols, statement-order and "
+                  "loop-shape rules on the three setters, reader/writer population agreement",
+        design="DESIGN.md §4 C04",
+    ),
     "C14": dict(
         level="other",
         text="Structural clauses of table rectangularity and merge consistency: in _Cell.merge the same-table and "
@@ -282,7 +299,7 @@ CLAIMED = {
 _NOT_BUILT = "decidable structural clause designed in DESIGN.md but its checker is not built yet"
 
 NOT_APPLICABLE = {
-    "C02": _NOT_BUILT, "C04": _NOT_BUILT,
+    "C02": _NOT_BUILT,
     "C06": _NOT_BUILT, "C08": _NOT_BUILT, "C09": _NOT_BUILT,
     "C12": _NOT_BUILT, "C13": _NOT_BUILT,
     "C17": _NOT_BUILT,
